@@ -5,6 +5,11 @@ HERE = os.path.dirname(os.path.dirname(os.path.abspath(__file__)))
 
 # id -> (category, technique, level text, level note, design ref)
 CHECKS = {
+ "C01": ("exploration",
+   "stateful property-based testing (proptest): generated message/timer/crash histories over real RaftNodes with the harness as the network; Raft safety invariants checked after every step; scenario-skeleton seed corpus; directed election suffix",
+   "Histories of deliveries (any order, loss, duplication), election timeouts, pre-vote, proposals and crash/restart from the real RaftWal file or a TensorStore image are generated over 3 or 5 real RaftNode objects whose only link is a harness-owned message bag. After every step: election safety, log matching, state-machine safety (global index->entry map of everything any node reported committed), leader completeness, monotone terms/commit index, clean-restart equality. Every node lacking a committed entry is additionally given a full election at the end (it must not win). Sampling, no proof of absence.",
+   "Trusts: handle_message is the only way a node learns of a message; crash = drop the node between two handler calls and rebuild from its durable state (torn writes are C10's domain); the harness may retransmit a candidate's RequestVote. Snapshot install/compaction and membership change are outside the property's quantifier and not generated.",
+   "DESIGN.md section 1 C01"),
  "C17": ("exploration",
    "property-based testing (proptest): permuted/batched/repeated delivery of generated update multisets to two replicas, reference max-register oracle; exhaustive small multisets; stateful event histories",
    "Generated multisets of membership updates are delivered to two real LWWMembershipState replicas (and two GossipMembershipManagers) in different orders/batchings/repetitions and the views are compared with each other and with an independent reference maximum; all multisets of <=3/4 updates over a tiny domain are enumerated against every order; event histories over 3-4 replicas check monotone incarnation/clock and 'never Failed above an announced incarnation' after every step. Sampling: holds on everything explored, no proof of absence.",
